@@ -50,17 +50,28 @@ def hx(b):
     return (b if isinstance(b, bytes) else b.encode("utf-8", "surrogatepass")).hex() or "-"
 
 
-def run_parallel(lines, workers=4):
-    """vlib.run_impl on chunks in threads (each spawns its own worker process)"""
-    if len(lines) < 400:
-        return vlib.run_impl(lines)
-    n = (len(lines) + workers - 1) // workers
-    parts = [lines[i:i + n] for i in range(0, len(lines), n)]
-    res = [None] * len(parts)
+BATCH = 400
 
-    def go(k):
-        res[k] = vlib.run_impl(parts[k], timeout=1500)
-    ths = [threading.Thread(target=go, args=(k,)) for k in range(len(parts))]
+
+def run_parallel(lines, workers=4):
+    """Runs the lines in batches of BATCH, each batch in a fresh worker process (the checker keeps process-global
+    state: a batch is the scope in which one input can influence another), batches spread over threads."""
+    if len(lines) <= BATCH:
+        return vlib.run_impl(lines, timeout=1500)
+    batches = [lines[i:i + BATCH] for i in range(0, len(lines), BATCH)]
+    res = [None] * len(batches)
+    nxt = [0]
+    lock = threading.Lock()
+
+    def go():
+        while True:
+            with lock:
+                k = nxt[0]
+                nxt[0] += 1
+            if k >= len(batches):
+                return
+            res[k] = vlib.run_impl(batches[k], timeout=1500)
+    ths = [threading.Thread(target=go) for _ in range(workers)]
     for t in ths:
         t.start()
     for t in ths:
@@ -136,26 +147,73 @@ def bad(ans):
     return ans.startswith(("panic", "timeout", "fatal"))
 
 
-def minimise(line, site, alphabet_split=None):
+def mk_line(f, raw):
+    return "%s\t%s\t%s\t%s" % (f[0], f[1], f[2], hx(bytes(raw)))
+
+
+def minimise(line, site, prefix=()):
+    """Smallest input with the same crash site. `prefix`: the lines that ran before it in the same worker process;
+    used when the crash does not reproduce in a fresh process (process-global checker state)."""
     f = line.split("\t")
-    if f[0] == "fe":
-        raw = bytes.fromhex(f[3].replace("-", ""))
-        mk = lambda b: "fe\trun\t%s\t%s" % (f[2], hx(bytes(b)))
-    else:
-        raw = bytes.fromhex(f[3].replace("-", ""))
-        mk = lambda b: "rx\ttr\t%s\t%s" % (f[2], hx(bytes(b)))
+    raw = bytes.fromhex(f[3].replace("-", ""))
+
+    def crashes(ans):
+        return bad(ans) and site_of(ans) == site
+    alone = vlib.run_impl([line])[0]
+    if not crashes(alone) and f[0] == "fe":
+        # which earlier inputs of the batch are needed?
+        pre = [l.split("\t")[3] for l in prefix if l.startswith("fe\trun\t") and "c" in l.split("\t")[2]]
+
+        def seq(ps, last=f[3]):
+            return "fe\tseq\t%s\t%s" % (f[2], ",".join(list(ps) + [last]))
+        if not crashes(vlib.run_impl([seq(pre)])[0]):
+            return line  # not reproducible even with its batch: reported as observed
+        if len(pre) > 1:
+            pre = LC.ddmin_batch(pre, lambda cs: [crashes(a) for a in run_each([seq(c) for c in cs])])
+        # shrink every member of the sequence
+        members = pre + [f[3]]
+        for i in range(len(members)):
+            rawi = bytes.fromhex(members[i].replace("-", ""))
+            words = re.findall(rb"\s+|[^\s]+", rawi)
+
+            def with_member(b):
+                return "fe\tseq\t%s\t%s" % (f[2], ",".join(members[:i] + [hx(b)] + members[i + 1:]))
+            if len(words) > 1:
+                words = LC.ddmin_batch(words, lambda cs: [crashes(a) for a in run_each([with_member(b"".join(c)) for c in cs])])
+                members[i] = hx(b"".join(words))
+        return "fe\tseq\t%s\t%s" % (f[2], ",".join(members))
 
     def test_many(cands):
-        res = run_parallel([mk(c) for c in cands]) if len(cands) > 8 else vlib.run_impl([mk(c) for c in cands])
-        return [bad(a) and site_of(a) == site for a in res]
-    # token-ish chunks first (split on whitespace boundaries), then bytes
+        return [crashes(a) for a in run_each([mk_line(f, c) for c in cands])]
     words = re.findall(rb"\s+|[^\s]+", raw)
     if len(words) > 1:
         words = LC.ddmin_batch(words, lambda cs: test_many([b"".join(c) for c in cs]))
         raw = b"".join(words)
     if 1 < len(raw) <= 400:
         raw = bytes(LC.ddmin_batch(list(raw), lambda cs: test_many([bytes(c) for c in cs])))
-    return mk(raw)
+    return mk_line(f, raw)
+
+
+def run_each(lines, workers=6):
+    """every line in its own fresh worker process"""
+    res = [None] * len(lines)
+    nxt = [0]
+    lock = threading.Lock()
+
+    def go():
+        while True:
+            with lock:
+                k = nxt[0]
+                nxt[0] += 1
+            if k >= len(lines):
+                return
+            res[k] = vlib.run_impl([lines[k]])[0]
+    ths = [threading.Thread(target=go) for _ in range(min(workers, max(1, len(lines))))]
+    for t in ths:
+        t.start()
+    for t in ths:
+        t.join()
+    return res
 
 
 def run(ctx):
@@ -250,7 +308,7 @@ def run(ctx):
 
     impl = run_parallel(lines)
     sites = {}
-    for ln, o, a in zip(lines, origin, impl):
+    for idx, (ln, o, a) in enumerate(zip(lines, origin, impl)):
         ctx.case(ln, nontrivial=a.startswith(("ok ", "ast=", "perr=")), sample={"line": ln[:200], "impl": a[:100]} if o != "pair" else None)
         ctx.stat("origin:" + o)
         if a.startswith("ok "):
@@ -267,10 +325,10 @@ def run(ctx):
             s = site_of(a)
             ctx.stat("crash")
             if s not in sites or len(ln) < len(sites[s][0]):
-                sites[s] = (ln, a)
+                sites[s] = (ln, a, idx)
     unknown = 0
-    for s, (ln, a) in sorted(sites.items())[:12]:
-        m = minimise(ln, s)
+    for s, (ln, a, idx) in sorted(sites.items())[:12]:
+        m = minimise(ln, s, prefix=lines[idx - idx % BATCH:idx])
         a2 = vlib.run_impl([m])[0]
         if not bad(a2):
             m, a2 = ln, a
